@@ -867,12 +867,69 @@ static void run_call_histories (void)
 static const char *history_formats [] = { "wav/pcm_16/file", "wav/float/file", "wav/ima_adpcm/file", "aiff/pcm_16/file", "aiff/ima_adpcm/file", "caf/alac_16/file", "caf/pcm_16/file", "au/ulaw/file",
 	"w64/pcm_16/file", "rf64/pcm_24/file", "paf/pcm_24/file", "sds/pcm_16/file", "voc/pcm_u8/file", "raw/gsm610/file", "sd2/pcm_16/file", NULL } ;
 
+/* ---- C15: every conversion loop when the device stops transferring.
+** Each (encoding, byte order, caller type, direction) pair has its own chunking loop in the library; the single-fault sweeps above walk
+** them for 48 representative formats with one caller type. Here every catalogue format x four caller types x {write, read} gets the one
+** fault that a loop can fail to notice: from some call on, the device accepts / delivers nothing (0 bytes, no error code). The transfer
+** that follows spans several staging chunks; it must come back within the I/O-call budget with a count inside the request, and sf_close
+** must come back and release everything. */
+static int stall_on, stall_dir ;
+static int stall_hook (MemDev *md, int kind, sf_count_t requested, sf_count_t *answer, void *user)
+{	(void) md ; (void) requested ; (void) user ;
+	if (! stall_on || kind != (stall_dir ? MD_READ : MD_WRITE)) return 0 ;
+	faults_delivered ++ ; *answer = 0 ; return 1 ;
+}
+
+static void stall_family (void)
+{	static double zbuf [9000 + 64] ; static const char *dn [2] = { "write", "read" } ;
+	for (int fi = 0 ; fi < fmt_count ; fi++)
+	{	const Fmt *f = &fmt_list [fi] ; unsigned char *img = NULL ; sf_count_t img_len = 0 ; int ch ;
+		if (f->needs_path || (f->format & SF_FORMAT_ENDMASK) == SF_ENDIAN_CPU) continue ;
+		if (! vl_opts.thorough && (f->format & SF_FORMAT_ENDMASK) == SF_ENDIAN_LITTLE && (f->format & SF_FORMAT_TYPEMASK) != SF_FORMAT_RAW) continue ;	/* quick: default and big-endian, raw in all */
+		ch = rt_accepts (f, 2, fmt_default_rate (f)) ? 2 : 1 ;
+		for (int dir = 0 ; dir < 2 ; dir++) for (int type = 0 ; type < T_NTYPES ; type++)
+		{	SF_INFO info ; SNDFILE *sf ; sf_count_t n ; long items = 9000 ; int rc ;
+			if (! vl_case ("C15 Z fmt=%s dir=%s type=%s", f->name, dn [dir], type_names [type])) continue ;
+			F = f ; CH = ch ; B = fmt_block (f, ch, fmt_default_rate (f)) ;
+			snprintf (RS, sizeof (RS), "%s|vio|stalled-%s", rt_fam (f), dn [dir]) ;
+			vl_root_count (f->name) ; clear_plan () ; ROUTE = R_VIO ; begin_history () ;
+			if (dir == 1 && ! img)
+			{	/* the file to read: 5000 frames written by the library */
+				md_reset (&dev) ; dev.fault = NULL ; dev.budget = 0 ; rt_info (&info, f, ch, fmt_default_rate (f)) ; sf = md_open (&dev, SFM_WRITE, &info) ;
+				if (sf) { vl_write (sf, T_SHORT, 0, wdata, 10000) ; INLIB (sf_close (sf)) ; img_len = dev.len ; img = malloc (dev.len + 1) ; memcpy (img, dev.data, dev.len) ; }
+				begin_history () ;
+				}
+			stall_on = 0 ; stall_dir = dir ;
+			if (dir == 0) { md_reset (&dev) ; rt_info (&info, f, ch, fmt_default_rate (f)) ; }
+			else { if (! img) { vl_end (0, 0) ; continue ; } md_set (&dev, img, img_len) ; rt_info_read (&info, f, ch, fmt_default_rate (f)) ; }
+			dev.fault = stall_hook ; dev.budget = 20000 + (long) img_len ;	/* a 9000-item transfer needs a few dozen callbacks: a loop that does not notice the stall is cut off quickly */
+			sf = md_open (&dev, dir ? SFM_READ : SFM_WRITE, &info) ;
+			if (! sf) { vl_note ("open refused") ; dev.fault = NULL ; vl_end (0, 0) ; continue ; }
+			memset (zbuf, 0, sizeof (zbuf)) ;	/* every case starts from the same bytes: a replay of one case is the case */
+			if (dir == 0) vl_write (sf, type, 0, zbuf, 3 * ch) ; else vl_read (sf, type, 0, zbuf, 3 * ch) ;
+			stall_on = 1 ;
+			{	GBuf g ; gb_new (&g, 32, items * 8, 32, 0x4D) ; memset (gb_ptr (&g), 0, items * 8) ;
+				n = dir == 0 ? vl_write (sf, type, 0, gb_ptr (&g), items) : vl_read (sf, type, 0, gb_ptr (&g), items) ;
+				if (gb_check (&g)) V15 ("transfer-outside-request", "guard bytes around the caller's buffer were modified") ;
+				gb_free (&g) ;
+				}
+			if (n < 0 || n > items) V15 ("count-out-of-range", "%s of %ld items on a device that transfers nothing returned %lld", dn [dir], items, (long long) n) ;
+			INLIB (rc = sf_close (sf)) ; (void) rc ;
+			stall_on = 0 ; dev.fault = NULL ;
+			after_close_checks (rc, 0, "close after the device stopped transferring") ;
+			vl_end (1, (uint64_t) n) ;
+			}
+		free (img) ;
+		}
+}
+
 void harness_run (void)
 {	is_c16 = ! strcmp (vl_opts.prop, "C16") ;
 	fmt_build () ; md_init (&dev) ; scratch_init () ;
 	{	const char *t = getenv ("TMPDIR") ; if (t && t [0] && chdir (t) != 0) { /* stay */ } }	/* the library's fallback for temporary files is the current directory */
 	for (int i = 0 ; i < 12000 ; i++) wdata [i] = (short) (((i * 37) % 2001 - 1000) * 11) ;
 	if (is_c16) run_alloc_histories () ;
+	else stall_family () ;
 	for (int i = 0 ; rep_formats [i] ; i++)
 	{	int in_hist = 0 ;
 		F = fmt_by_name (rep_formats [i]) ;
